@@ -175,7 +175,21 @@ EXTRA_THEOREMS = {
 
 # translator phases: (tool, root module of its agreement theorems)
 TIE_PHASES = [("rs2lean.py", "TranslatedAgree"), ("rs2lean2.py", "TranslatedAgreeB"), ("rs2lean3.py", "TranslatedAgreeC"),
-              ("rs2lean4.py", "TranslatedAgreeD"), ("rs2lean5a.py", "TranslatedAgreeE"), ("rs2lean5b.py", "TranslatedAgreeF")]
+              ("rs2lean4.py", "TranslatedAgreeD"), ("rs2lean5a.py", "TranslatedAgreeE"), ("rs2lean5b.py", "TranslatedAgreeF"),
+              ("rs2lean6a.py", "TranslatedAgreeG"), ("rs2lean6b.py", "TranslatedAgreeH")]
+
+# phase 6a (selector.rs + path functions, Proofs/TranslatedAgreeG*), 6b (parser.rs + util.rs, Proofs/TranslatedAgreeH*)
+_SELW = ["select_object_values_agrees", "select_array_values_agrees", "select_by_name_agrees", "select_by_indices_agrees", "select_path_agrees", "find_positions_agrees",
+         "filter_expr_agrees", "compare_agrees", "partial_cmp_agrees", "convert_expr_val_paths"]
+_SELM = ["select_agrees'", "exists_agrees", "predicate_match_agrees", "is_predicate_agrees", "path_exists_agrees", "path_match_agrees", "get_by_path_agrees",
+         "get_by_path_first_agrees", "get_by_path_array_agrees", "path_exists_whole", "path_match_whole", "get_by_path_whole", "get_by_path_first_whole", "get_by_path_array_whole"]
+_SELB = ["build_values_agrees", "build_scalar_array_agrees", "build_predicate_result_agrees"]
+_JPAR = ["parse_value_agrees", "parse_value_ne_fuel", "parse_json_value_agrees", "parser_parse_json_string_agrees", "parser_parse_json_number_agrees", "parser_skip_unused_agrees",
+         "parser_step_digits_agrees", "parse_string_sim", "parse_escaped_string_sim", "encode_invalid_unicode_agrees", "parser_parse_json_null_agrees",
+         "parser_parse_json_true_agrees", "parser_parse_json_false_agrees", "parser_next_agrees", "parser_must_is_agrees", "parser_parse_agrees"]
+for _p, _l in {"C08": _SELW + _SELM[:4], "C15": _SELM + _SELB, "C17": _SELB, "C07": ["select_agrees'"], "C20": ["select_by_indices_agrees"],
+               "C02": _JPAR, "C10": ["parse_value_agrees", "parse_value_ne_fuel", "from_slice_text_whole"], "C11": ["parse_value_agrees", "from_slice_text_whole"] + _SELM[9:]}.items():
+    TIE[_p] = TIE[_p] + [x for x in _l if x not in TIE[_p]]
 
 # phase 5b (tools/rs2lean5b.py, Proofs/TranslatedAgreeF*.lean): compare, comparable key, contains
 _CMP = ["compare_encodeSpec_agrees", "compare_jsonb_agrees", "compare_text_agrees", "compare_scalar_agrees", "compare_container_agrees", "keysAreStrings_encodeSpec"]
@@ -211,13 +225,14 @@ def tie_sources(name, functions):
     if name in TIE_SOURCES:
         return TIE_SOURCES[name]
     import re as _re
-    stem = _re.sub(r"_(fn_agrees|agrees_eq|agrees|whole|jsonb|lazy|model|cases|loop|drain|run|overflow)$", "", name)
+    stem = _re.sub(r"_(fn_agrees|agrees_eq|agrees'|agrees|sim|whole|jsonb|lazy|model|cases|loop|drain|run|overflow)$", "", name)
+    stem = _re.sub(r"^parser_", "", stem)
     return [k for k in functions if k.endswith("::" + stem)]
 
 TRUSTED_BASE = [
     "Lean 4.33.0 kernel (thorough tier re-checks the theorem module with leanchecker)",
     "axioms: only propext, Classical.choice, Quot.sound (audited per theorem by #print axioms on every run); no native_decide, no bv_decide, no user axioms, no sorry",
-    "tools/rs2lean.py + rs2lean2.py + rs2lean3.py + rs2lean4.py + rs2lean5a.py + rs2lean5b.py (translators of about 135 functions of /repo/src to Lean: number codec and order, entry words, index arithmetic, byte walkers, iterators, entry patching, escaper, the recursive Decoder of de.rs and Encoder of ser.rs, the builders of builder.rs and eleven byte-level editors / set functions and 31 read-only accessors and casts, and the compare / comparable-key / contains families of functions.rs; regenerated every run) with lean/JsonbModel/RustPrelude*.lean (hand-written meaning of the Rust primitives they emit: integer casts, checked arithmetic, byte conversions, slices, loops as bounded folds, recursion on explicit fuel, BTreeMap as a sorted list, from_utf8 as validUtf8, OrderedFloat); the agreement theorems tie their output to the model",
+    "tools/rs2lean.py + rs2lean2.py + rs2lean3.py + rs2lean4.py + rs2lean5a.py + rs2lean5b.py + rs2lean6a.py + rs2lean6b.py (translators of about 200 functions of /repo/src to Lean: number codec and order, entry words, index arithmetic, byte walkers, iterators, entry patching, escaper, the recursive Decoder of de.rs and Encoder of ser.rs, the builders of builder.rs and eleven byte-level editors / set functions and 31 read-only accessors and casts, the compare / comparable-key / contains families of functions.rs, the JSONPath selector and the path functions, and the JSON text parser with util.rs; regenerated every run) with lean/JsonbModel/RustPrelude*.lean (hand-written meaning of the Rust primitives they emit: integer casts, checked arithmetic, byte conversions, slices, loops as bounded folds, recursion on explicit fuel, BTreeMap as a sorted list, from_utf8 as validUtf8, OrderedFloat); the agreement theorems tie their output to the model",
     "tools/gen_constants.py (translator constants.rs -> Lean) and the line-protocol glue (lean/JsonbModel/Driver/*.lean, harness/src/wire.rs)",
     "the correspondence check itself: the hand-written implementation model is tied to /repo by sampled differential runs (request stream of this run, see coverage)",
     "modelled, not verified: Rust slice/Vec/integer-cast semantics, BTreeMap ordering, byteorder; the spec layer is my reading of the README and the property text",
